@@ -6,7 +6,7 @@ import os
 import shutil
 import time
 
-from common import ToolError, harness, log, read_ndjson, tlc, tlc_text, write_ndjson, REPLAY_DIR
+from common import ConfigUnavailable, ToolError, build_harness, harness, log, read_ndjson, tlc, tlc_text, write_ndjson, REPLAY_DIR
 import scanners
 
 
@@ -39,6 +39,17 @@ def run_table(ctx, table, config="std", tier=None, per=8192, spec_table=None, ex
     """harness table -> chunk files -> TLC judge.  Returns list of (prop, clause, row)."""
     tier = tier or ctx.tier
     d = ctx.work.fresh("table_%s_%s_" % (table, config), "d")
+    if config != "std":
+        try:
+            build_harness("std")
+            build_harness(config)
+        except ConfigUnavailable as e:
+            note = "configuration `%s` skipped for table %s: the crate under test does not build there" % (config, table)
+            if note not in ctx.notes:
+                ctx.notes.append(note)
+            log("NOTE " + note + "\n" + str(e)[-600:])
+            os.makedirs(d, exist_ok=True)
+            return d, [], 0
     mode = [table] if table in ("ints", "serde") else ["table", table]
     out, dt = harness(config, mode + [d, tier, str(ctx.seed), str(per)], timeout=7200)
     lines = out.strip().splitlines()
